@@ -74,6 +74,14 @@ def wchoice(rng, pairs):
     return pairs[-1][0]
 
 
+# values that look like numbers, booleans or nulls in some notation (a serializer or loader
+# that re-formats, parses or treats them as falsy shows on these)
+VALUE_LIKE = ["0", "1", "-1", "+1", "01", "1.0", "1.", "0.5", ".5", "-.5", "1e3", "1E-3", "0x10", "NaN", "nan",
+              "inf", "-inf", "-0", "-0.000", "0.000000", "1,000", "1_000", "1 000", "\u0663", "\uff11\uff12",
+              "YES", "NO", "yes", "no", "True", "true", "False", "false", "NULL", "None", "null", "nil",
+              "1:23", "01:02:03", "1/2", "50%", "#1", "0=0", "0.000=0.000", "1=2=3"]
+
+
 def gen_string(rng, profile, maxlen=8):
     """profile: plain | meta | wild | enc:<codec>"""
     if profile.startswith("enc:"):
@@ -90,6 +98,9 @@ def gen_string(rng, profile, maxlen=8):
         return ""
     if r < 0.16:
         return rng.choice(["0", "1", "a", " ", "\n", ":", ";", "#", "\\", "/"])
+    if r < 0.20:
+        v = rng.choice(VALUE_LIKE)
+        return v if profile != "plain" or v.isascii() else "0"
     if profile == "plain":
         pool = PLAIN
     elif profile == "meta":
